@@ -8,6 +8,8 @@ import (
 	"testing"
 	"time"
 
+	"google.golang.org/grpc/codes"
+	"google.golang.org/grpc/status"
 	"google.golang.org/protobuf/proto"
 
 	aftpb "github.com/openconfig/gribi/v1/proto/gribi_aft"
@@ -157,6 +159,27 @@ func catalogue() []catEntry {
 			Designated: names("Get for installed"),
 			Fault: func() *faults.Fault {
 				return &faults.Fault{Get: func(p *faults.Proxy, req *spb.GetRequest, rs []*spb.GetResponse) []*spb.GetResponse { return nil }}
+			},
+		},
+		{
+			// the data is complete, but the RPC does not succeed: a failed Get is not an answer
+			Name:       "get-ends-with-error-after-the-data",
+			Designated: names("Get for installed"),
+			Fault: func() *faults.Fault {
+				return &faults.Fault{GetEndErr: status.Error(codes.Unavailable, "get: backend went away")}
+			},
+		},
+		{
+			Name:       "get-ends-with-error-after-the-first-response",
+			Designated: names("Get for installed"),
+			Fault: func() *faults.Fault {
+				return &faults.Fault{GetEndErr: status.Error(codes.Internal, "get: cannot read the table"),
+					Get: func(p *faults.Proxy, req *spb.GetRequest, rs []*spb.GetResponse) []*spb.GetResponse {
+						if len(rs) > 1 {
+							rs = rs[:1]
+						}
+						return rs
+					}}
 			},
 		},
 		{
